@@ -1090,10 +1090,11 @@ class CircuitTemplate(AbstractBaseTemplate):
         hierarchies.
 
         """
-        edges = self.edges
+        edges = list(self.edges)  # a new list: the sub-circuit edges collected below must not be added to self.edges
         for c_scope, c in self.circuits.items():
             edges_tmp = c.collect_edges()
             for svar, tvar, template, edge_dict in edges_tmp:
+                edge_dict = dict(edge_dict)  # the scope prefix is added to a copy, not to the sub-circuit's own edge
                 for key, val in edge_dict.copy().items():
                     if type(val) is str and val != 'source':
                         edge_dict[key] = f"{c_scope}/{val}"
